@@ -8,6 +8,7 @@ import (
 	"fmt"
 	"io"
 	"reflect"
+	"strconv"
 	"strings"
 
 	structform "github.com/elastic/go-structform"
@@ -82,12 +83,41 @@ func encoders(c *simkit.Choices, x *simkit.Ctx) *simkit.Violation {
 	nh := 1 + c.N(6)
 	var hist [][]model.Op
 	sc := &Scenario{Kind: "encoder", Format: string(f)}
+	// sized containers whose length sits on a header-width boundary, arrays
+	// and objects of the SAME announced length next to each other
+	sized := func() []model.Op {
+		n := []int{23, 24, 25, 255, 256, 257}[c.N(6)]
+		var ops []model.Op
+		for k, m := 0, 1+c.N(2); k <= m; k++ {
+			if c.Bool() {
+				ops = append(ops, model.Op{Ev: simkit.Ev{K: simkit.KArrStart, I: int64(n)}})
+				for j := 0; j < n; j++ {
+					ops = append(ops, model.Op{Ev: simkit.Ev{K: simkit.KInt64, I: int64(j)}})
+				}
+				ops = append(ops, model.Op{Ev: simkit.Ev{K: simkit.KArrEnd}})
+			} else {
+				ops = append(ops, model.Op{Ev: simkit.Ev{K: simkit.KObjStart, I: int64(n)}})
+				for j := 0; j < n; j++ {
+					ops = append(ops, model.Op{Ev: simkit.Ev{K: simkit.KKey, S: "k" + strconv.Itoa(j)}}, model.Op{Ev: simkit.Ev{K: simkit.KInt64, I: int64(j)}})
+				}
+				ops = append(ops, model.Op{Ev: simkit.Ev{K: simkit.KObjEnd}})
+			}
+		}
+		return append(append([]model.Op{{Ev: simkit.Ev{K: simkit.KArrStart, I: -1}}}, ops...), model.Op{Ev: simkit.Ev{K: simkit.KArrEnd}})
+	}
+	useSized := c.N(8) == 0
 	for i := 0; i < nh; i++ {
 		ops := model.GenOps(c, oo)
+		if useSized && c.Bool() {
+			ops = sized()
+		}
 		hist = append(hist, ops)
 		sc.History = append(sc.History, model.OpsString(ops, 40))
 	}
 	probe := model.GenOps(c, oo)
+	if useSized {
+		probe = sized()
+	}
 	sc.Probe = model.OpsString(probe, 40)
 	simkit.SetCurrent(sc)
 	st.Eval(1)
